@@ -104,9 +104,10 @@ impl DynHeader {
     }
     pub fn lit_dist(&self) -> (Vec<u8>, Vec<u8>) {
         let v = self.expand();
+        // lengths beyond hlit + hdist (a run that overshoots) are not part of either code
         let l = v[..self.hlit.min(v.len())].to_vec();
         let d = if v.len() > self.hlit {
-            v[self.hlit..].to_vec()
+            v[self.hlit..(self.hlit + self.hdist).min(v.len())].to_vec()
         } else {
             vec![]
         };
